@@ -162,21 +162,117 @@ def rule_r3(ctx) -> RuleResult:
     return rr
 
 
+def _lua_prefixes_error(ctx) -> str:
+    """'' or a description of the return statement of _lua_invoke that concatenates a caught error behind a constant prefix"""
+    p2 = ctx.lua.file("_sandbox_phase2.lua")
+    inv = p2.func_named("_lua_invoke")
+    if inv is None:
+        raise AnalysisError("_lua_invoke vanished from _sandbox_phase2.lua")
+    caught = set()
+    for n in L.walk(inv):
+        if n.kind in ("assign", "local"):
+            exprs = getattr(n, "exprs", None) or []
+            if len(exprs) == 1 and exprs[0].kind == "call" and L.text(exprs[0].func) in ("pcall", "xpcall"):
+                tg = n.targets if n.kind == "assign" else n.names
+                if len(tg) >= 2:
+                    t = tg[1]
+                    caught.add(t if isinstance(t, str) else L.text(t))
+    for n in L.walk(inv):
+        if n.kind == "return" and len(n.exprs) == 2:
+            e = n.exprs[1]
+            while e.kind == "paren":
+                e = e.expr
+            leaves = []
+
+            def flat(x):
+                while x.kind == "paren":
+                    x = x.expr
+                if x.kind == "binop" and x.op == "..":
+                    flat(x.left)
+                    flat(x.right)
+                else:
+                    leaves.append(x)
+            flat(e)
+            if len(leaves) >= 2 and leaves[0].kind == "string":
+                for lf in leaves[1:]:
+                    names = {L.text(x) for x in L.walk(lf) if x.kind == "name"}
+                    if names & caught:
+                        return "_lua_invoke (line {}: {!r} .. ... .. {})".format(n.line, leaves[0].value[:30], L.text(lf))
+    return ""
+
+
+def _truncating_assignments(fn, subject, before_line) -> str:
+    """'' or the text of an assignment before `before_line` that makes `subject` a part of a string (split / slice / sub /
+    partition / splitlines of something; trimming white space at the ends loses nothing)"""
+    if not isinstance(subject, ast.Name):
+        return ""
+    for n in walk_no_nested(fn):
+        if isinstance(n, ast.Assign) and n.lineno < before_line and any(isinstance(t, ast.Name) and t.id == subject.id for t in n.targets):
+            for c in ast.walk(n.value):
+                if isinstance(c, ast.Call) and isinstance(c.func, ast.Attribute) and c.func.attr in (
+                        "split", "rsplit", "splitlines", "partition", "rpartition", "sub", "removeprefix", "removesuffix"):
+                    return unparse(n)[:70]
+                if isinstance(c, ast.Subscript) and isinstance(c.slice, ast.Slice):
+                    return unparse(n)[:70]
+    return ""
+
+
 def rule_r4(ctx, marker: str) -> RuleResult:
     rr = RuleResult("C07.R4", "the Python side recognises the timeout and leaves the context usable", min_instances=4)
     fn = ctx.fn("luaexec.call_lua_sandbox")
-    tests = [n for n in walk_no_nested(fn) if isinstance(n, ast.If) and isinstance(n.test, ast.Compare) and isinstance(n.test.ops[0], ast.In)
-             and isinstance(n.test.left, ast.Constant) and "timeout" in str(n.test.left.value).lower()]
-    if len(tests) == 1 and tests[0].test.left.value == marker and unparse(tests[0].test.comparators[0]) == "text":
-        body = unparse(tests[0].body[0]) if tests[0].body else ""
-        if marker in body:
-            rr.ok("luaexec.call_lua_sandbox", "tests `{!r} in text` and reports it in-band".format(marker), {"marker": marker})
+    # where does Python probe the error text for the timeout marker?  `<const> in text` / `<const> not in text` as the test of
+    # an `if` or of a conditional expression; the arm taken when the probe succeeds must produce the in-band element's text
+    probes = []
+    for n in walk_no_nested(fn):
+        if isinstance(n, (ast.If, ast.IfExp)) and isinstance(n.test, ast.Compare) and len(n.test.ops) == 1 \
+                and isinstance(n.test.ops[0], (ast.In, ast.NotIn)) and isinstance(n.test.left, ast.Constant) \
+                and isinstance(n.test.left.value, str) and "timeout" in n.test.left.value.lower():
+            pos = isinstance(n.test.ops[0], ast.In)
+            arm = (n.body if pos else n.orelse)
+            probes.append((n.test.left.value, n, arm if isinstance(arm, list) else [arm]))
+    # position-dependent probes (startswith / == / slices of the text): wrong as soon as the Lua side can hand the
+    # marker over behind a prefix, which _lua_invoke does for errors raised while the module is loading
+    # (`return false, "\tLoading module failed ..." .. tostring(<pcall error>)`)
+    prefixed = _lua_prefixes_error(ctx)
+    for n in walk_no_nested(fn):
+        c = None
+        if isinstance(n, ast.Call) and isinstance(n.func, ast.Attribute) and n.func.attr in ("startswith", "endswith") and n.args:
+            c = n.args[0]
+        elif isinstance(n, ast.Compare) and len(n.ops) == 1 and isinstance(n.ops[0], (ast.Eq, ast.NotEq)):
+            c = n.comparators[0] if isinstance(n.comparators[0], ast.Constant) else n.left
+        if isinstance(c, ast.Constant) and isinstance(c.value, str) and "timeout" in c.value.lower() and prefixed:
+            rr.bad(Finding("C07.R4", LX, "luaexec.call_lua_sandbox", unparse(n)[:80],
+                           "the timeout marker is looked for at a fixed position of the error text, but {} hands it over behind a "
+                           "prefix: such a timeout is reported as a generic Lua error".format(prefixed), n.lineno))
+    for probe, node, arm in list(probes):
+        subject = node.test.comparators[0]
+        cut = _truncating_assignments(fn, subject, node.lineno)
+        if cut and prefixed:
+            rr.bad(Finding("C07.R4", LX, "luaexec.call_lua_sandbox", unparse(node.test),
+                           "the timeout marker is looked for in `{}`, which holds only part of the error text ({}), but {} hands the "
+                           "marker over behind a prefix / on a later line".format(unparse(subject), cut, prefixed), node.lineno))
+            probes.remove((probe, node, arm))
+    other = [c.value for c in walk_no_nested(fn) if isinstance(c, ast.Constant) and isinstance(c.value, str) and "timeout error" in c.value.lower()]
+    if rr.findings:
+        other = []
+    if not probes and other:
+        raise AnalysisError("call_lua_sandbox: a timeout message {!r} exists but the probe of the error text was not recognised "
+                            "(known: `<marker> in text` as an if / conditional-expression test)".format(other[0]))
+    if not probes and not rr.findings:
+        rr.bad(Finding("C07.R4", LX, "luaexec.call_lua_sandbox", "marker test []",
+                       "Python looks for nothing but the hook raises {!r}: a timeout is reported as a generic Lua error".format(marker), fn.lineno))
+    for probe, node, arm in probes:
+        if probe not in marker:
+            rr.bad(Finding("C07.R4", LX, "luaexec.call_lua_sandbox", "marker test [{!r}]".format(probe),
+                           "Python looks for {!r} but the hook raises {!r}: a timeout is reported as a generic Lua error".format(probe, marker), node.lineno))
+            continue
+        arm_consts = [c.value for a_ in arm for c in ast.walk(a_) if isinstance(c, ast.Constant) and isinstance(c.value, str)]
+        if any("Lua timeout error" in c for c in arm_consts):
+            rr.ok("luaexec.call_lua_sandbox", "tests `{!r} in text` and reports it in-band".format(probe), {"marker": marker, "probe": probe})
         else:
-            rr.bad(Finding("C07.R4", LX, "luaexec.call_lua_sandbox", body, "the in-band message for a timeout changed", tests[0].lineno))
-    else:
-        got = [t.test.left.value for t in tests]
-        rr.bad(Finding("C07.R4", LX, "luaexec.call_lua_sandbox", "marker test {}".format(got),
-                       "Python looks for {} but the hook raises {!r}: a timeout is reported as a generic Lua error".format(got or "nothing", marker), fn.lineno))
+            rr.bad(Finding("C07.R4", LX, "luaexec.call_lua_sandbox", "; ".join(unparse(a_) for a_ in arm)[:80],
+                           "the in-band message for a timeout changed (the arm taken when the marker is found no longer produces "
+                           "'Lua timeout error')", node.lineno))
     # stacks popped after the try on every path
     trys = [n for n in fn.body if isinstance(n, ast.Try)]
     pops = [n for n in fn.body if isinstance(n, ast.If) and "lua_env_stack" in unparse(n.test) and "lua_env_stack.pop()" in unparse(n)]
